@@ -1,7 +1,10 @@
 import ActixModel.Model.Quoter
+import ActixModel.Model.Pattern
 /-
 C10 — declarative specifications, written independently of the models' code paths.
-(Only the type `Bytes := List UInt8` is taken from the model.)
+(Only the type `Bytes := List UInt8` and the *syntax* of patterns — `Atom`, `Piece`, `Seg`,
+`Suffix`, `DynPat`, `PatType`, `ResourceDef` — and `Atom.matches`, `blen` are taken from the models;
+none of the matching code is.)
 -/
 namespace ActixModel.C10
 open ActixModel.Quoter (Bytes)
@@ -49,5 +52,95 @@ def hexChar (n : Nat) : UInt8 := if n < 10 then UInt8.ofNat (48 + n) else UInt8.
 def encodeAll : Bytes → Bytes
   | [] => []
   | b :: rest => 37 :: hexChar (b.toNat / 16) :: hexChar (b.toNat % 16) :: encodeAll rest
+
+
+/-! ## Spec of pattern matching: the language of a pattern (declarative, no priorities)
+
+In the words of the property: static text matches itself; a dynamic segment matches a non-empty
+run without `/` (`defaultRe`); a custom regex or tail segment matches its language; a match of
+a prefix resource ends at end-of-path or in front of a `/`; of a full resource at end-of-path. -/
+
+open ActixModel.Pattern
+
+/-- `w` is a run of the greedy piece `atom{min,max}` -/
+def RepOk (a : Atom) (mn : Nat) (mx : Option Nat) (w : List Char) : Prop :=
+  (∀ c ∈ w, a.matches c = true) ∧ mn ≤ w.length ∧ (∀ m, mx = some m → w.length ≤ m)
+
+/-- language of a sequence of pieces -/
+inductive LangRe : Re → List Char → Prop where
+  | nil : LangRe [] []
+  | cons {p : Piece} {ps : Re} {w v : List Char} :
+      RepOk p.atom p.min p.max w → LangRe ps v → LangRe (p :: ps) (w ++ v)
+
+/-- language of a segment list, with the value of every dynamic segment -/
+inductive LangSegs : List Seg → List Char → List (Name × List Char) → Prop where
+  | nil : LangSegs [] [] []
+  | const {cs : List Char} {rest : List Seg} {v : List Char} {vals : List (Name × List Char)} :
+      LangSegs rest v vals → LangSegs (.const cs :: rest) (cs ++ v) vals
+  | var {n : Name} {re : Re} {rest : List Seg} {w v : List Char} {vals : List (Name × List Char)} :
+      LangRe re w → LangSegs rest v vals → LangSegs (.var n re :: rest) (w ++ v) ((n, w) :: vals)
+
+/-- where a match may end -/
+def SuffixOk : Suffix → List Char → Prop
+  | .eos, rest => rest = []
+  | .slashOrEos, rest => rest = [] ∨ ∃ t, rest = '/' :: t
+  | .open, _ => True
+
+/-- one dynamic pattern matches a prefix `m` of `path` (of `n` bytes) with values `vals` -/
+def LangDyn (d : DynPat) (path : List Char) (n : Nat) (vals : List (Name × List Char)) : Prop :=
+  ∃ m rest, path = m ++ rest ∧ LangSegs d.segs m vals ∧ SuffixOk d.suffix rest ∧ n = blen m
+
+/-- the resource definition matches `path`: matched length (bytes) and values.  For a pattern
+list: the first pattern (in order) that matches at all. -/
+def Matches (rd : ResourceDef) (path : List Char) (n : Nat) (vals : List (Name × List Char)) : Prop :=
+  match rd.patType with
+  | .static p =>
+    ∃ rest, path = p ++ rest ∧ n = blen p ∧ vals = [] ∧
+      (if rd.isPrefix then (rest = [] ∨ ∃ t, rest = '/' :: t) else rest = [])
+  | .dynamic d => LangDyn d path n vals
+  | .dynamicSet ds =>
+    ∃ i d, ds[i]? = some d ∧ LangDyn d path n vals ∧
+      ∀ (j : Nat) (d' : DynPat), j < i → ds[j]? = some d' → ¬ ∃ n' vals', LangDyn d' path n' vals'
+
+/-- group names are pairwise distinct (the `regex` crate rejects duplicates; `parse` checks it) -/
+def DynWF (d : DynPat) : Prop := allDistinct d.names = true
+
+def DefWF (rd : ResourceDef) : Prop :=
+  match rd.patType with
+  | .static _ => True
+  | .dynamic d => DynWF d
+  | .dynamicSet ds => ∀ d ∈ ds, DynWF d
+
+/-- "slash-separated" patterns: no dynamic segment can contain a `/`, and each one is followed
+by the end of the pattern or by static text starting with `/` (e.g. `/user/{id}/post/{title}`) -/
+def Separated : List Seg → Prop
+  | [] => True
+  | .const _ :: rest => Separated rest
+  | .var _ re :: rest =>
+    (∀ w, LangRe re w → '/' ∉ w) ∧ (rest = [] ∨ ∃ cs rest', rest = .const ('/' :: cs) :: rest') ∧
+      Separated rest
+
+/-- a segment name without braces or colon (what one writes between `{` and `}`) -/
+def plainName (name : List Char) : Prop := '{' ∉ name ∧ '}' ∉ name ∧ ':' ∉ name
+
+/-- the substring of `path` between two byte offsets (both on character boundaries) -/
+def Substr (path : List Char) (st en : Nat) (w : List Char) : Prop :=
+  ∃ a b, path = a ++ w ++ b ∧ st = blen a ∧ en = blen a + blen w
+
+/-- the spans, one per value and in the same order, carry the value's name, are the byte
+offsets of that value inside `path`, and end within the first `bound` bytes -/
+def SpansOk (path : List Char) (bound : Nat) :
+    List (Name × Nat × Nat) → List (Name × List Char) → Prop
+  | [], [] => True
+  | sp :: sps, v :: vs =>
+    sp.1 = v.1 ∧ Substr path sp.2.1 sp.2.2 v.2 ∧ sp.2.2 ≤ bound ∧ SpansOk path bound sps vs
+  | _, _ => False
+
+/-- byte spans of the values when the segments are laid out from byte `pos` -/
+def spansOf : List Seg → Nat → List (Name × List Char) → List (Name × Nat × Nat)
+  | [], _, _ => []
+  | .const cs :: rest, pos, vals => spansOf rest (pos + blen cs) vals
+  | .var _ _ :: _, _, [] => []
+  | .var n _ :: rest, pos, (_, w) :: vals => (n, pos, pos + blen w) :: spansOf rest (pos + blen w) vals
 
 end ActixModel.C10
